@@ -43,7 +43,7 @@ CLAIMS = {
              'x kept fraction, evidence term = sum_j L_j V_b/N, Kish size per shell and overall, '
              'per-sample weights that sum to the evidence term and are normalised by their own '
              'sum.  Floating-point evaluation of the formulas and eta are not decided.',
-        ref='DESIGN.md sections 4 C02, 10.9-10.11, rules L1 L1d T3 T8 Q3 A2 A6 L5 U1 A8 A9 P4 E I1 N3', note=TRUST),
+        ref='DESIGN.md sections 4 C02, 10.9-10.11, 10.14, rules L1 L1d T3 T8 Q3 A2 A6 L5 U1 A8 A9 P4 E I1 N3', note=TRUST),
     'C03': dict(
         technique='lockstep path analysis (same mask / index / source on parallel arrays), '
                   'ordered-map and batch-axis lints on the evaluation path, copy-provenance rule',
@@ -164,12 +164,13 @@ CLAIMS.update({
              'length of a per-point image of its argument or of the likelihood output); the '
              'likelihood is only called there; run() evaluates only inside a loop guarded by the '
              'strict test n_like < n_like_max, at most one batch per iteration and none in a nested '
-             'loop, idle iterations are pure; sample_shell returns exactly n_batch fresh rows; '
+             'loop, idle iterations are pure and end the loop (their branch conditions entail the '
+             'success predicate also for a NaN estimator); sample_shell returns exactly n_batch fresh rows; '
              'the success predicate is one conjunction over explored / per-shell minimum / n_eff '
              'and is the returned value; every evaluated point comes from a unit-cube restricted '
              'bound through row selections and a shift that is closed on [0,1); across resumes the '
              'budget is compared with a counter that every checkpoint update rewrites.',
-        ref='DESIGN.md sections 4 C10, 10.9-10.11, rules F6 N1 T5 T8 T3 M1 M3 M6 P4 I1', note=TRUST),
+        ref='DESIGN.md sections 4 C10, 10.9-10.11, 10.14, rules F6 N1 T5 T8 T3 M1 M3 M6 P4 I1', note=TRUST),
     'C11': dict(
         technique='effect (write/draw) summaries closed over the call graph; control-dependence '
                   'analysis of flag tests; rng provenance; nondeterminism lints with fixtures',
@@ -199,7 +200,7 @@ CLAIMS.update({
              'incremental update and comes back from a checkpoint as the bool its setter accepts.  '
              'Known finding K1 (listed in known_findings.json): the discard argument of run() is '
              'ignored once exploration has ended.',
-        ref='DESIGN.md sections 4 C12, 10.9-10.13 (known finding K1), rules T6 F6 L1 L3 T3 T4 A2 A6 P4 P9 P12 I1', note=TRUST),
+        ref='DESIGN.md sections 4 C12, 10.9-10.14 (known finding K1), rules T6 F6 L1 L3 T3 T4 A2 A6 P4 P9 P12 I1', note=TRUST),
     'C13': dict(
         technique='lockstep path analysis of the parallel per-ellipsoid records, '
                   'validate-before-mutate and post-dominance (cache reset) on CFGs',
@@ -227,7 +228,7 @@ CLAIMS.update({
              'and one double-precision uniform per row, a Bernoulli-only mask being admitted only '
              'under branch conditions that force boost < 1.  That NumPy floor/compare/repeat do '
              'what their names say is assumed.',
-        ref='DESIGN.md sections 4 C14, 10.9-10.11, rules L5 F1 Q4 Q5 E(normalisation)', note=TRUST),
+        ref='DESIGN.md sections 4 C14, 10.9-10.11, 10.13, rules L5 F1 Q4 Q5 E(normalisation)', note=TRUST),
     'C16': dict(
         technique='abstract interpretation: interval domain with open/closed ends and float-mod '
                   'transfer function; linear-form comparison of forward and inverse shift; '
